@@ -71,7 +71,30 @@ type (
 		StoreCalls() int
 		LastFailedCall() string
 	}
+	// Decliner ends sub's assignment the way a DHCP Decline does (the value is not returned to the free list).
+	Decliner interface{ Decline(sub string) }
+	// AltEntry drives the implementation's second entry point for the same request (the peer HTTP API of
+	// pool.PeerPool, DistributedAllocator.AllocateWithMAC, PoolAllocator.AllocateWithOptions as the DHCPv6
+	// server calls it, LocalAllocator.Allocate without a MAC).
+	AltEntry interface {
+		AllocAlt(sub string) (string, error)
+		ReleaseAlt(sub string) error
+	}
+	// Snapshotter returns a copy of a free-list pool's own tables (through the `verif` accessors).
+	Snapshotter interface {
+		Snapshot() Snapshot
+		// Key is the key under which sub appears in Snapshot.Allocated (MAC, DUID, session id).
+		Key(sub string) string
+	}
 )
+
+// Snapshot is a copy of a free-list pool's state: who holds what, and what is free.
+type Snapshot struct {
+	Allocated  map[string]string // implementation key -> value
+	Available  []string          // free list in allocation order
+	Reverse    map[string]string // value -> key (nil if the implementation keeps no reverse index)
+	Quarantine []string          // values taken out of service (declined), if the implementation records them
+}
 
 // Info describes one generated pool configuration.
 type Info struct {
